@@ -443,8 +443,13 @@ scanopen(void)
 }
 
 void
-scansetloc(struct location loc)
+scansetloc(struct location loc, const struct location *eol)
 {
+	/*
+	loc is the location of the line following the new-line at eol,
+	but the look-ahead character may be on a later line (splices)
+	*/
+	loc.line += scanner->loc.line - (eol->line + 1);
 	scanner->loc = loc;
 }
 
